@@ -28,6 +28,13 @@ no longer checks is reported through chk.proof_broken and the run still searches
 concrete failing input with the hand model.  In addition (d) every direct case is run
 through the generated code (Model/RefineGenCheck.check_gen_box, from diameter).
 
+Route T (driver): tools/py2coq_refinedriver.py re-translates, on every run, refine_leastsq from `for _, f_iter in iterable:` to
+`return f` (try / except RefineException / else, the recentring loop with its break, the rms test after the loop, the
+compute_error block, write-back and NaN cost; plus the check that nothing outside the closures of get_residual can raise)
+into coq/Gen/refinedriver.v; Proofs/RefinedriverGen.v proves generated = Model/RefineDriver2.run2 for all oracles, and
+C16_gen_driver_full restates C16_driver_full for the generated driver.  Same reporting: translation error / broken proof ->
+chk.proof_broken, the run continues with the hand model.
+
   (e) driver replay (Model/RefineCheck2.check_drive): during every real run the calls of
       prepare_subimages / minimize / compute_bounds are recorded (wrappers installed on the
       imported module, /repo untouched); per unit the recorded per-iteration outcomes are
@@ -56,6 +63,10 @@ IMPORTS_GEN = "From TP Require Import Model.RefineBounds Model.RefineDriver Mode
 IMPORTS_DRIVE = "From TP Require Import Model.RefineBounds Model.RefineDriver Model.RefineCheck Model.RefineDriver2 Model.RefineCheck2."
 TRANSLATOR = os.path.join(common.VERIF, 'tools', 'py2coq_bounds.py')
 GEN = os.path.join(common.COQ, 'Gen', 'bounds.v')
+TRANSLATOR_DRV = os.path.join(common.VERIF, 'tools', 'py2coq_refinedriver.py')
+GEN_DRV = os.path.join(common.COQ, 'Gen', 'refinedriver.v')
+TRANSLATORS = [(TRANSLATOR, GEN, 'the bounds assembly'),
+               (TRANSLATOR_DRV, GEN_DRV, 'the driver of refine_leastsq: unit loop / try-except scope / recentring loop / rms test / write-back')]
 STATE = dict(gen_ok=False, drive_ok=False)
 TOL_SHIFT = Fraction(1, 10 ** 9)
 RESIDUAL_FACTOR = 100000.      # default of refine_leastsq; the harness never passes another value
@@ -91,22 +102,24 @@ POS = {2: ['y', 'x'], 3: ['z', 'y', 'x']}
 # --------------------------------------------------------------------------
 # translator / build (route T)
 # --------------------------------------------------------------------------
-def regenerate(chk):
-    """re-run the translator on the current source; returns (ok, text-or-log)"""
-    rc, out = common.sh([sys.executable, TRANSLATOR, '--repo', common.REPO, '--stdout'], timeout=60)
+def regenerate(chk, translator=None, gen=None):
+    """re-run a translator on the current source; returns (ok, text-or-log)"""
+    translator, gen = translator or TRANSLATOR, gen or GEN
+    name = 'Gen/' + os.path.basename(gen)
+    rc, out = common.sh([sys.executable, translator, '--repo', common.REPO, '--stdout'], timeout=60)
     if rc != 0:
         return False, out
     with common.Lock(os.path.join(common.COQ, '.build.lock')):
-        old = open(GEN).read() if os.path.exists(GEN) else None
+        old = open(gen).read() if os.path.exists(gen) else None
         if old != out:
-            os.makedirs(os.path.dirname(GEN), exist_ok=True)
-            tmp = GEN + '.tmp%d' % os.getpid()
+            os.makedirs(os.path.dirname(gen), exist_ok=True)
+            tmp = gen + '.tmp%d' % os.getpid()
             with open(tmp, 'w') as f:
                 f.write(out)
-            os.replace(tmp, GEN)
-            chk.tally('Gen/bounds.v rewritten (source differs from last run)')
+            os.replace(tmp, gen)
+            chk.tally('%s rewritten (source differs from last run)' % name)
         else:
-            chk.tally('Gen/bounds.v unchanged')
+            chk.tally('%s unchanged' % name)
     return True, out
 
 
@@ -123,27 +136,35 @@ def ensure_vo(chk, targets, what):
 
 
 def build(chk):
-    """translator -> cone of Properties/C16.v -> executable check files"""
+    """translators -> cone of Properties/C16.v -> executable check files"""
     STATE['gen_ok'] = STATE['drive_ok'] = False
-    ok, text = regenerate(chk)
+    texts = {}
+    for tr, gen, what in TRANSLATORS:
+        ok1, text = regenerate(chk, tr, gen)
+        if ok1:
+            texts[gen] = text
+        else:
+            chk.proof_broken('translation tools/%s (%s left the translatable subset)' % (os.path.basename(tr), what), text)
+    ok = len(texts) == len(TRANSLATORS)
     if not ok:
-        chk.proof_broken('translation tools/py2coq_bounds.py (the bounds assembly left the translatable subset)', text)
         chk.build = dict(obligations=0, discharged=0, assumptions=[], files=[], theorems=[])
     else:
         for attempt in range(3):
             b = chk.coq()
-            if open(GEN).read() == text:
+            if all(open(g).read() == t for g, t in texts.items()):
                 break
-            # another run (different TRACKPY_REPO) rewrote the generated file in between: redo
+            # another run (different TRACKPY_REPO) rewrote a generated file in between: redo
             chk.violations = [v for v in chk.violations if not v[0].startswith('proof:')]
-            regenerate(chk)
-        chk.notes.append('Gen/bounds.v sha1 %s generated from %s' % (hashlib.sha1(text.encode()).hexdigest()[:12], common.REPO))
+            for tr, gen, what in TRANSLATORS:
+                regenerate(chk, tr, gen)
+        for gen, text in texts.items():
+            chk.notes.append('Gen/%s sha1 %s generated from %s' % (os.path.basename(gen), hashlib.sha1(text.encode()).hexdigest()[:12], common.REPO))
     # the hand model and the monitors must be executable whatever happened above
     base = ensure_vo(chk, ['Model/RefineBounds.v', 'Model/RefineDriver.v', 'Model/RefineCheck.v'], 'Model/RefineCheck.v (hand model does not build)')
     STATE['drive_ok'] = base and ensure_vo(chk, ['Model/RefineCheck2.v'], 'Model/RefineCheck2.v (driver replay does not build)')
-    if ok:
+    if GEN in texts:
         STATE['gen_ok'] = base and ensure_vo(chk, ['Model/RefineGenCheck.v'], 'Gen/bounds.v / Model/RefineGenCheck.v (generated bounds code does not build)') \
-            and open(GEN).read() == text
+            and open(GEN).read() == texts[GEN]
     return base
 
 
@@ -1314,6 +1335,10 @@ def run(chk):
         "route T: tools/py2coq_bounds.py (fail-closed) and the vocabulary Model/PyBounds.v are trusted; exercised on every direct case by executing the generated code "
         "against the implementation; hand-written on the generated side: dict look-up / `is np.nan` / column membership / IEEE special values / nanmax,fmax / broadcasting / "
         "vect_from_params = pack (C15's subject)",
+        "route T (driver): tools/py2coq_refinedriver.py (fail-closed) and the vocabulary Model/PyRefinedriver.v are trusted: control flow (try scope, loop, break, tests, "
+        "place of every write) is translated generically; prepare_subimages, minimize (ValueError for an empty box, success / x / fun), the Hessian block, "
+        "vect_from_params / vect_to_params = pack / unpack, the pandas writes (f.loc[idx, c] = v by position; f[c] = v at every row) are named primitives; "
+        "compute_error=True is covered only by 'it can only add exceptions' (C16_gen_compute_error_only_adds_exceptions)",
         "driver replay: wrappers on minimize / prepare_subimages / FitFunctions.compute_bounds of the imported module record the oracle outcomes; rms_dev is recomputed as "
         "sqrt(fun / 100000.) (default residual_factor); the float shift test is guarded by running the model with max_shift (1 -+ 1e-9) (disagreement = skipped, counted)",
         "SLSQP returns a point of the box on success (hypothesis opt_in_box of C16_success_in_bounds); exercised by the monitor, not proved",
